@@ -19,40 +19,40 @@ Import RecordSetNotations.
 
 Theorem C09_verify_sig_sound : forall s owner so d,
   sig_sane owner so -> verify_sig s owner so = Some d -> d = owner /\ signed_by s owner so.
-Proof. exact verify_sig_sound. Qed.
+Proof. first [exact verify_sig_sound | apply verify_sig_sound]. Qed.
 Print Assumptions C09_verify_sig_sound.
 
 Theorem C09_rejected_tx_unchanged : forall cx s op s' c d,
   is_tx op = true -> step cx s op = (s', OutTx c d) -> c <> COk -> model_view s' = model_view s.
-Proof. exact rejected_tx_unchanged. Qed.
+Proof. first [exact rejected_tx_unchanged | apply rejected_tx_unchanged]. Qed.
 Print Assumptions C09_rejected_tx_unchanged.
 
 Theorem C09_model_frame : forall cx s op, touches_models op = false -> model_view (fst (step cx s op)) = model_view s.
-Proof. exact model_frame. Qed.
+Proof. first [exact model_frame | apply model_frame]. Qed.
 Print Assumptions C09_model_frame.
 
 Theorem C09_store_authorized : forall cx s m s' d,
   sig_sane (st_owner m) (st_sig m) -> step cx s (OStore m) = (s', OutTx COk d) ->
   signed_by s (st_owner m) (st_sig m) /\ (forall em, metas s !! st_data m = Some em -> may_write em (st_owner m)).
-Proof. exact store_authorized. Qed.
+Proof. first [exact store_authorized | apply store_authorized]. Qed.
 Print Assumptions C09_store_authorized.
 
 Theorem C09_store_touches_only_its_model : forall cx s m s' d k,
   step cx s (OStore m) = (s', OutTx COk d) -> k <> st_data m -> metas s' !! k = metas s !! k.
-Proof. exact store_touches_only_its_model. Qed.
+Proof. first [exact store_touches_only_its_model | apply store_touches_only_its_model]. Qed.
 Print Assumptions C09_store_touches_only_its_model.
 
 Theorem C09_terminate_authorized : forall cx s c p owner data sg s' d,
   sig_sane owner sg -> step cx s (OTerminate c p owner data sg) = (s', OutTx COk d) ->
   signed_by s owner sg /\ exists em, metas s !! data = Some em /\ may_write em owner.
-Proof. exact terminate_authorized. Qed.
+Proof. first [exact terminate_authorized | apply terminate_authorized]. Qed.
 Print Assumptions C09_terminate_authorized.
 
 Theorem C09_permission_authorized : forall cx s c p owner data ro rw sg v s' d,
   sig_sane owner sg -> step cx s (OUpdatePermission c p owner data ro rw sg v) = (s', OutTx COk d) ->
   signed_by s owner sg /\ exists em, metas s !! data = Some em /\ may_admin em owner /\
   (forall k, k <> data -> metas s' !! k = metas s !! k).
-Proof. exact permission_authorized. Qed.
+Proof. first [exact permission_authorized | apply permission_authorized]. Qed.
 Print Assumptions C09_permission_authorized.
 
 Theorem C09_renew_authorized_partial : forall cx s m s' d data em,
@@ -60,24 +60,24 @@ Theorem C09_renew_authorized_partial : forall cx s m s' d data em,
   step cx s (ORenew m) = (s', OutTx COk d) ->
   metas s !! data = Some em -> metas s' !! data <> Some em ->
   signed_by s (rn_owner m) (rn_sig m) /\ may_admin em (rn_owner m) /\ In data (rn_data m).
-Proof. exact renew_authorized_partial. Qed.
+Proof. first [exact renew_authorized_partial | apply renew_authorized_partial]. Qed.
 Print Assumptions C09_renew_authorized_partial.
 
 Theorem C09_renew_authorized_refuted : exists cx s m s' d data em,
   sig_sane (rn_owner m) (rn_sig m) /\ step cx s (ORenew m) = (s', OutTx COk d) /\
   metas s !! data = Some em /\ metas s' !! data <> Some em /\
   ~ may_admin em (rn_owner m) /\ ~ In data (rn_data m).
-Proof. exact renew_authorized_refuted. Qed.
+Proof. first [exact renew_authorized_refuted | apply renew_authorized_refuted]. Qed.
 Print Assumptions C09_renew_authorized_refuted.
 
 Theorem C09_complete_touches_only_order_model : forall cx s c p oid cid sz ok s' d o k,
   step cx s (OComplete c p oid cid sz ok) = (s', OutTx COk d) ->
   orders s !! oid = Some o -> k <> o_data o -> metas s' !! k = metas s !! k.
-Proof. exact complete_touches_only_order_model. Qed.
+Proof. first [exact complete_touches_only_order_model | apply complete_touches_only_order_model]. Qed.
 Print Assumptions C09_complete_touches_only_order_model.
 
 Theorem C09_cancel_touches_only_order_model : forall cx s c p oid s' d o k,
   step cx s (OCancel c p oid) = (s', OutTx COk d) ->
   orders s !! oid = Some o -> k <> o_data o -> metas s' !! k = metas s !! k.
-Proof. exact cancel_touches_only_order_model. Qed.
+Proof. first [exact cancel_touches_only_order_model | apply cancel_touches_only_order_model]. Qed.
 Print Assumptions C09_cancel_touches_only_order_model.
